@@ -319,6 +319,8 @@ def _escaping_windows(f, fs, dest_ids):
 
 # ---------------------------------------------------------------------------------------------- C6d
 OVERWRITE_SPLITTERS = {'_mzd_mul_even': 0, '_mzd_sqr_even': 0, '_mzd_mul_mp4': 0}
+# the overwriting public entry points C = A*B: the same must-write obligation (C6d only; they do not split)
+OVERWRITE_ENTRIES = {'mzd_mul': 0, 'mzd_mul_m4rm': 0, 'mzd_mul_naive': 0, 'mzd_mul_mp': 0}
 
 
 def rule_C6d(ctx, prog, label, rule='C6d'):
@@ -329,7 +331,7 @@ def rule_C6d(ctx, prog, label, rule='C6d'):
     from .symbolic import FuncSym
     rr = RuleResult(rule, 'overwriting recursive products: no return is reachable without the destination having been handed to a writing call (the empty-destination shortcut excepted)')
     eff = ctx.effects(prog)
-    for name, di in sorted(OVERWRITE_SPLITTERS.items()):
+    for name, di in sorted(dict(OVERWRITE_SPLITTERS, **OVERWRITE_ENTRIES).items()):
         f = prog.funcs.get(name)
         if f is None or f.body is None:
             continue
@@ -384,7 +386,7 @@ def rule_C6d(ctx, prog, label, rule='C6d'):
               Finding(rule, '%s|%s' % (rule, name), f.loc, name,
                       '%s can return without having written its destination `%s` (a shortcut path bypasses every product/addition into %s or its quadrants): '
                       'the previous contents stay in the result' % (name, C.name, C.name), {}, label))
-    rr.require_floor(2, 'overwriting splitters')
+    rr.require_floor(5, 'overwriting splitters and entry points')
     return rr
 
 
